@@ -37,6 +37,20 @@ type WalkerResult struct {
 
 // WalkerSweep runs n walker cases split over parallel driver processes with varying GOMAXPROCS.
 func WalkerSweep(run *report.Run, n, maxNodes int, race bool, handle func(o Outcome, r *WalkerResult)) error {
+	return walkerDriverSweep(run, "TestWalker", n, maxNodes, race, func(o Outcome) {
+		var r *WalkerResult
+		if o.Res != nil {
+			r = &WalkerResult{}
+			if err := json.Unmarshal(o.Res, r); err != nil {
+				r = nil
+			}
+		}
+		handle(o, r)
+	})
+}
+
+// walkerDriverSweep runs cases [0,n) of one test of the walker driver.
+func walkerDriverSweep(run *report.Run, test string, n, maxNodes int, race bool, handle func(o Outcome)) error {
 	drv, err := grog.Driver("walker", race)
 	if err != nil {
 		return err
@@ -61,20 +75,13 @@ func WalkerSweep(run *report.Run, n, maxNodes int, race bool, handle func(o Outc
 			return
 		}
 		procs := []string{"1", "2", "16"}[c%3]
-		outs := RunBatch(BatchOpts{Driver: drv, TestName: "TestWalker", From: from, To: to, Dir: dir,
+		outs := RunBatch(BatchOpts{Driver: drv, TestName: test, From: from, To: to, Dir: dir,
 			Args: []string{"-vseed", strconv.FormatInt(run.Seed, 10), "-vmaxnodes", strconv.Itoa(maxNodes)},
 			Env:  []string{"GOMAXPROCS=" + procs}})
 		mu.Lock()
 		defer mu.Unlock()
 		for _, o := range outs {
-			var r *WalkerResult
-			if o.Res != nil {
-				r = &WalkerResult{}
-				if err := json.Unmarshal(o.Res, r); err != nil {
-					r = nil
-				}
-			}
-			handle(o, r)
+			handle(o)
 		}
 	})
 	return nil
